@@ -87,7 +87,10 @@ def check_items(prop, items, seed=0, do_search=True, per=6):
         ideal_ok = ires.get(it.id)
         s10 = bool(it.harvest and "edges" in it.harvest and bpexport.s10_region(it.bpj, it.harvest))
         s16 = bool(it.harvest and "edges" in it.harvest and bpexport.s16_region(it.bpj, it.harvest))
-        if ideal_ok and _classify_wiring(it):
+        s17 = bool(it.harvest and "edges" in it.harvest and bpexport.s17_region(it.bpj, it.harvest))
+        if ideal_ok is None and s17:
+            it.status = "known:S17"
+        elif ideal_ok and _classify_wiring(it):
             it.status = "known:S12"
         elif ideal_ok is False and s16:
             it.status = "known:S16"
